@@ -1,0 +1,15 @@
+//go:build verif
+// +build verif
+
+package radius
+
+// VerifHook, when set, is called at the named synchronisation points of the
+// packet server. It exists only in builds with the "verif" tag and is used by
+// the verification harness to park goroutines inside scheduling windows.
+var VerifHook func(point string)
+
+func verifPoint(point string) {
+	if h := VerifHook; h != nil {
+		h(point)
+	}
+}
